@@ -66,6 +66,7 @@ type VC struct {
 	curLoopA    *Term
 	pendingTyping []pendingType
 	pendingRoles  []string
+	cbinvs        []string // callback invariants assumed after higher-order calls (reported as assumptions)
 	closureVars   map[string]EV // captured variables of a closure under contract, by name (entry values)
 }
 
